@@ -672,6 +672,27 @@ func runC01(c *Ctx) {
 		scen("range: requests after the range is exhausted", chainSpec{
 			Plugins4: []chainPlug{{"server_id", []string{"10.0.0.1"}}, {"range", []string{"$DIR/leases.sqlite3", "10.0.0.10", "10.0.0.12", "1h"}}, {"dns", []string{"1.1.1.1"}}}, Dgrams: dg})
 	}
+	{
+		// the layer-2 reply path (broadcast flag clear, no ciaddr, no relay) with every kind of interface information
+		var dg []chainDgram
+		for _, oob := range []int{0, -1, 7001, 0} {
+			d := mk4(1, []byte{2, 1, 0, 0, 0, byte(10 + oob%5)}, false)
+			d.Oob = oob
+			dg = append(dg, d)
+		}
+		scen("layer-2 reply path on an unbound listener, control message absent / without interface / with interface", chainSpec{
+			Plugins4: []chainPlug{{"server_id", []string{"10.0.0.1"}}, {"range", []string{"$DIR/leases.sqlite3", "10.0.0.10", "10.0.0.40", "1h"}}}, Dgrams: dg})
+		// a Relay-Reply (not a Relay-Forward) wrapping a valid SOLICIT, sent to the server
+		rr := req6spec{mtype: 1, cid: &dhcpv6.DUIDLL{HWType: iana.HWTypeEthernet, LinkLayerAddr: macA},
+			layers: []relaySpec{{mtype: dhcpv6.MessageTypeRelayReply, link: net.ParseIP("2001:db8::1"), peer: net.ParseIP("fe80::2")}}}
+		rr2 := rr
+		rr2.layers = []relaySpec{{mtype: dhcpv6.MessageTypeRelayForward, link: net.ParseIP("2001:db8::1"), peer: net.ParseIP("fe80::2")},
+			{mtype: dhcpv6.MessageTypeRelayReply, link: net.ParseIP("2001:db8::1"), peer: net.ParseIP("fe80::3")}}
+		scen("a Relay-Reply sent to the server", chainSpec{
+			Plugins6: []chainPlug{{"server_id", []string{"LL", "00:de:ad:be:ef:00"}}, {"dns", []string{"2001:db8::53"}}},
+			Dgrams: []chainDgram{{Proto: 6, Hex: hex.EncodeToString(buildReq6(rr)), Oob: 3, Peer: "fe80::1"}, {Proto: 6, Hex: hex.EncodeToString(buildReq6(rr2)), Oob: 3, Peer: "fe80::1"},
+				mk6(1, macA, nil, noHint)}})
+	}
 	for _, url := range []string{"http://boot.example/ipxe", "http://host/path?params=a+b", "tftp://[2001:db8::1]/boot.efi"} {
 		var dg []chainDgram
 		for _, oro := range [][]dhcpv6.OptionCode{nil, {59}, {60}, {59, 60}, {60, 59, 23}, {}} {
